@@ -46,6 +46,16 @@ Calibration (unchanged tree)
   under ``internal_inherit_config``; undocumented either way, ignored.
 * YAML-style words (``true``/``null``...) are mapped by ``interpret_value`` but
   are not part of the documented rule; they are not generated.
+* A first version compared ``collect_env`` results literally and a mutant that
+  only rewrote ``_`` to ``-`` in the variable name went unnoticed by design of the
+  spelling-insensitive comparison; it was replaced by a mutant that changes the
+  documented mapping (``DASK`` prefix without underscore).
+* Genuine defect (``PENDING``, /verif/findings_proposed/C17.md): a ``set`` call
+  whose later key raises leaves the earlier keys of the same call applied.  With
+  the proposed two-hunk fix applied to a scratch copy the complete quick space is
+  held; with only the "roll back in __init__" hunk the monitor still fires from
+  the initial states with a list / str in the path (the undo of a recorded but
+  never applied operation raises).
 """
 from __future__ import annotations
 
